@@ -147,6 +147,40 @@ func TestVerifC10(t *testing.T) {
 	if sh, _ := vh.Shard(); sh == 0 {
 		c10PreEncrypted(t, rep)
 	}
+	// (e) a server instance that loaded its representation data from the metadata cache
+	// (written by an earlier run) must serve the same protected content
+	if sh, nsh := vh.Shard(); sh == nsh-1 {
+		dir, err := os.MkdirTemp(os.Getenv("VERIF_SCRATCH"), "c10cache")
+		if err != nil {
+			t.Fatalf("scratch: %v", err)
+		}
+		defer os.RemoveAll(dir)
+		if _, err := vNewServer(vBundledRoot, dir, true); err != nil {
+			t.Fatalf("cache-writing server: %v", err)
+		}
+		srv, err := vNewServer(vBundledRoot, dir, false)
+		if err != nil {
+			t.Fatalf("cache-loading server: %v", err)
+		}
+		if dc, err := drm.ReadDrmConfig(c10DrmCfg); err == nil {
+			srv.Cfg.DrmCfg = dc
+		}
+		for _, ap := range []string{"testpic_2s", "testpic_8s"} {
+			a, err := vAsset(vBundledRoot, ap)
+			if err != nil {
+				continue
+			}
+			drms := []string{"eccp_cenc", "eccp_cbcs"}
+			for _, p := range pkgs {
+				drms = append(drms, "drm_"+p.name)
+			}
+			for _, d := range drms {
+				for _, chunked := range []bool{false, true} {
+					c10Run(rep, srv, a, ap, d, "number", chunked, pkgs, true)
+				}
+			}
+		}
+	}
 }
 
 func jobShardKey(s string) int {
